@@ -440,3 +440,12 @@ CLAIMED['C15']['text'] += (' The event-trace clause is checked on the real code 
      'maintenance and failures (events whose action is a functools.partial), trace and exported file compared with the events '
      'observed by wrapping Environment.step; finding F15 (simulate(trace=True) raised AttributeError on a model with a work order) '
      'was found this way and repaired (435c9e8).')
+
+_add('C03', 'STAGE V (appended to Props/C03W.lean): several groups AND re-wiring inside scripts: scope S5R (contains S4R and S5; decidable; '
+     'preserved by every step), no_lost_wakeup5_script_rewire_reachable, wakeV_reachable, stacks_typedV; the only added condition is that '
+     'the envelope (wiring plus every connection a scripted rewire may add) is typed by the group-context certificate -- necessary: '
+     'script_rewire_untyped_false, outside_rewire_untyped_false (a connection across two group contexts loses a wake-up). A group shared '
+     'between two nesting levels is in scope when its usages are not connected by the wiring (s5_exLevels); when they are, no certificate '
+     'exists (shared_levels_untypable) and Quiescent is only evaluated on the concrete run (shared_levels_run_quiescent). Still outside: '
+     'batchers at nesting depth >= 2 (F14), connected shared levels, create.')
+CLAIMED['C03']['note'] = BASE_NOTE + ' Partial: closed-world theorem for scope S5R (several groups, rewiring in scripts and from outside, typed envelope); creation, batchers at nesting depth >= 2 and connected shared nesting levels by probe and correspondence. Known finding F14 (nested groups with batches crossing group boundaries). "run returns": per-scenario watchdog.'
